@@ -102,6 +102,8 @@ class Ctx:
     def prove(self, name, cond, timeout_ms=10000, expect_refuted=False):
         """Check PC => cond.  Returns status in {'discharged','refuted','undecided'}."""
         goal = _bterm(cond)
+        if expect_refuted:
+            timeout_ms = min(timeout_ms, 3000)  # a canary only has to be *not discharged*
         t0 = time.time()
         status, model, backend = discharge(self.pc, goal, timeout_ms)
         dt = time.time() - t0
